@@ -10,7 +10,7 @@ Sidecar format (contracts/loops/*.loops):
     __CPROVER_loop_invariant(...)
     __CPROVER_decreases(...)
     @end
-    @ghost <function> after <k> <literal text>   # after the line holding the k-th occurrence
+    @ghost <function> after|before <k> <literal text>   # after/before the line holding the k-th occurrence
     __verif_g.x = 1;
     @end
     @prepend                            # text put before the first line of the file
@@ -155,9 +155,9 @@ def parse_sidecar(path):
         elif t[0] == "@loop":
             cur = {"kind": "loop", "fn": t[1], "ord": int(t[2]), "text": []}
         elif t[0] == "@ghost":
-            if t[2] != "after":
+            if t[2] not in ("after", "before"):
                 raise AnnotateError("bad @ghost line: " + ln)
-            cur = {"kind": "ghost", "fn": t[1], "k": int(t[3]), "anchor": t[4], "text": []}
+            cur = {"kind": "ghost", "fn": t[1], "where": t[2], "k": int(t[3]), "anchor": t[4], "text": []}
         elif t[0] == "@prepend":
             cur = {"kind": "prepend", "text": []}
         else:
@@ -210,7 +210,11 @@ def annotate_text(src, items):
                 s = t.strip()
                 if s and not re.match(r"^(__verif_\w+(\.\w+|\[[^\]]*\])*\s*(=|\+=|\|=|\+\+)|if\s*\(.*\)\s*__verif_)", s):
                     raise AnnotateError("ghost statement must assign a __verif_ lvalue: " + t)
-            ins.append((eol, "\n" + "\n".join(it["text"])))
+            if it.get("where") == "before":
+                bol = src.rfind("\n", 0, pos) + 1
+                ins.append((bol, "\n".join(it["text"]) + "\n"))
+            else:
+                ins.append((eol, "\n" + "\n".join(it["text"])))
             stats["ghost_assignments"] += sum(1 for t in it["text"] if t.strip())
         elif it["kind"] == "prepend":
             ins.append((0, "\n".join(it["text"]) + "\n"))
